@@ -10,12 +10,6 @@ import CoseProofs.Lemmas.Parse
 open CoseModel
 namespace C05
 
-theorem facts_prefixes :
-    Facts.sign1MessagePrefix = [0xd2, 0x84] ∧ Facts.signMessagePrefix = [0xd8, 0x62, 0x84] ∧
-    Facts.signaturePrefix = [0x83] ∧
-    Facts.consts.lookup "CBORTagSign1Message" = some 18 ∧ Facts.consts.lookup "CBORTagSignMessage" = some 98 := by
-  decide
-
 /-- the envelope of an accepted COSE_Sign1: exactly one definite-length 4-array (after tag 18 when
     tagged), nothing after it, no tag inside, payload a byte string or null, signature a
     non-empty byte string, protected bucket a byte string, unprotected bucket a map -/
